@@ -25,6 +25,7 @@ func runC20(w *core.World, r *core.Report) {
 	r.Rule("R4", "blocked stays blocked: TERMINATE test between run and setCode; gate in Run; who may clear TERMINATE")
 	r.Rule("R6", "Finish saves whenever the engine was initialised and has a persister: every success return passes Persister.Save, the initd==false edge or the no-persister edge")
 	r.Rule("R5", "the reset path keeps client flags")
+	r.Rule("R11", "the pending code is consumed when the engine fetches it (C06 R12): a terminated or failed request does not save the lines it was given")
 	r.Rule("R10", "a matched INCMP clears READIN before it moves (a later dead end then terminates instead of going to the catch node)")
 	r.Rule("R9", "engine.Loop finishes (saves) the engine on every exit (C17 R8): an end inside the loop is stored")
 	r.Rule("R8", "Finish saves only an initialised engine (C17 R5): what the pre-VM hook's clean-up did to a blocked session's flags is never stored")
@@ -40,6 +41,7 @@ func runC20(w *core.World, r *core.Report) {
 	checkFinishSavesOnlyInitialised(w, r, "R8")
 	checkLoopAlwaysFinishes(w, r, "R9")
 	checkMatchClearsReadin(w, r, "R10")
+	checkPendingCodeConsumed(w, r, "R11")
 	run := anchor(w, r, "vm", "(*Vm).Run")
 	roles := resolveEngineRoles(w)
 	labels := roleLabels(w, r)
